@@ -19,10 +19,9 @@ fn base(b: u8) -> bool {
     b != b'\r' && b != b'\n' && b != b'>'
 }
 
-// @verif prop=C12,C11 id=O12.4c tier=off off_reason="does not fit: >900 s / >14 GB with the real memchr SSE2 path under a symbolic window (a memchr stub is not applied by Kani to this call site)" unwind=10 timeout=900 stubs="std::arch::x86_64::__cpuid_count->no optional CPU features (memchr runs its real SSE2 path)" bound="line b0 b1 CR LF followed by b2 (2 symbolic bases, CRLF), delivered split in two at ANY offset (one solver-placed partial fill_buf window): (line width, bases) == (4, 2) and the scanner stops after the LF" fns="fasta::io::indexer::consume_sequence_line,count_bases"
+// @verif prop=C12,C11 id=O12.4c tier=quick unwind=10 stubs="memchr::memchr->first-occurrence loop (cfg(kani) source shim, documented contract)" bound="line b0 b1 CR LF followed by b2 (2 symbolic bases, CRLF), delivered split in two at ANY offset (one solver-placed partial fill_buf window): (line width, bases) == (4, 2) and the scanner stops after the LF" fns="fasta::io::indexer::consume_sequence_line,count_bases"
 #[kani::proof]
 #[kani::unwind(10)]
-#[kani::stub(std::arch::x86_64::__cpuid_count, fake_cpuid)]
 fn c12_fasta_consume_sequence_line_crlf_any_windows() {
     let b: [u8; 3] = kani::any();
     kani::assume(base(b[0]) && base(b[1]) && base(b[2]));
@@ -33,10 +32,9 @@ fn c12_fasta_consume_sequence_line_crlf_any_windows() {
     assert_eq!(src.pos, 4);
 }
 
-// @verif prop=C12,C11 id=O12.4d tier=off off_reason="does not fit: >900 s / >14 GB with the real memchr SSE2 path under a symbolic window (a memchr stub is not applied by Kani to this call site)" unwind=10 timeout=900 stubs="std::arch::x86_64::__cpuid_count->no optional CPU features (memchr runs its real SSE2 path)" bound="last line b0 b1 without terminator then EOF / then '>' (symbolic choice), split in two at any offset: (2, 2)" fns="consume_sequence_line"
+// @verif prop=C12,C11 id=O12.4d tier=quick unwind=10 stubs="memchr::memchr->first-occurrence loop (cfg(kani) source shim, documented contract)" bound="last line b0 b1 without terminator then EOF / then '>' (symbolic choice), split in two at any offset: (2, 2)" fns="consume_sequence_line"
 #[kani::proof]
 #[kani::unwind(10)]
-#[kani::stub(std::arch::x86_64::__cpuid_count, fake_cpuid)]
 fn c12_fasta_consume_sequence_line_unterminated() {
     let b: [u8; 2] = kani::any();
     kani::assume(base(b[0]) && base(b[1]));
@@ -59,10 +57,9 @@ fn line_case(k: usize) {
     assert_eq!(src.pos, 4);
 }
 
-// @verif prop=C12,C11 id=O12.4e tier=off off_reason="does not fit: >600 s even with CONCRETE split points -- the real memchr SSE2 path over symbolic bytes is what explodes" unwind=20 timeout=600 stubs="std::arch::x86_64::__cpuid_count->no optional CPU features (memchr runs its real SSE2 path)" bound="line b0 b1 CR LF followed by b2 (symbolic base bytes), delivered in two fill_buf windows split after byte 1, 2, 3 (between CR and LF) or 4 (one run each; split positions are concrete, R13): (line width, bases) == (4, 2), scanner stops after the LF" fns="fasta::io::indexer::consume_sequence_line,count_bases"
+// @verif prop=C12,C11 id=O12.4e tier=thorough unwind=20 timeout=600 stubs="memchr::memchr->first-occurrence loop (cfg(kani) source shim, documented contract)" bound="line b0 b1 CR LF followed by b2 (symbolic base bytes), delivered in two fill_buf windows split after byte 1, 2, 3 (between CR and LF) or 4 (one run each; split positions are concrete, R13): (line width, bases) == (4, 2), scanner stops after the LF" fns="fasta::io::indexer::consume_sequence_line,count_bases"
 #[kani::proof]
 #[kani::unwind(20)]
-#[kani::stub(std::arch::x86_64::__cpuid_count, fake_cpuid)]
 fn c12_fasta_consume_sequence_line_crlf_split_anywhere() {
     line_case(1);
     line_case(2);
